@@ -37,6 +37,7 @@ def run(ctx):
     ctx.undecided = "that mixed old/new signer sets fail and that t refreshed participants can sign (algebra)."
     ctx.floor = 16
     P = ctx.prog
+    wrappers(ctx, ['keys::refresh::compute_refreshing_shares', 'keys::refresh::refresh_share', 'keys::refresh::refresh_dkg_part1', 'keys::refresh::refresh_dkg_part2', 'keys::refresh::refresh_dkg_shares'])
     # ---- trusted dealer: compute_refreshing_shares
     f = ctx.anchor(RF + "compute_refreshing_shares")
     if f:
